@@ -16,6 +16,7 @@ def showOut : Out → String
   | .tunnel c ip port data src => s!"tunnel:{c}:{toHex ip}:{port}:{toHex data}:{showDest src}"
   | .resolve c h _ _ => s!"resolve:{c}:{toHex h}"
   | .loc c how => s!"loc:{c}:{how}"
+  | .reenter c => s!"reenter:{c}"
 
 def b01 (b : Bool) : String := if b then "1" else "0"
 
